@@ -4,6 +4,7 @@ from .. import balance as B
 
 SCOPE = "engine"
 LEVEL = "other"
+PANIC_PROFILES = True
 EXPLANATION = (
     "Static all-paths analysis of the resolved MIR. R1: for every function of the engine crates and every board "
     "it calls Bitboard::make/unmake on, the product (basic block x outstanding-make count x return kind) is "
@@ -44,9 +45,18 @@ def balance_rule(ctx, rid="C09.R1"):
             ctx.lost(rid, SEARCH + a + " (no make/unmake site found in it)")
 
 
+def run_panics(ctx):
+    from . import c07
+    c07.run_panics(ctx, "C09.R3")
+
+
 def run(ctx):
     balance_rule(ctx, "C09.R1")
     bestmove_rule(ctx, "C09.R2")
+    # 'an interrupted search still answers with exactly one bestmove': the search thread must not die between the
+    # interruption and the answer (same inventory as C07.R4)
+    from . import c07
+    c07.run_panics(ctx, "C09.R3")
     ctx.assumptions += [
         "Bitboard::make/unmake are the only primitives that change a board in place during search (C03 covers that unmake restores what make changed)",
         "panics (unwind paths) are not interruption points of the property; cleanup blocks are ignored",
